@@ -1372,7 +1372,9 @@ LEVEL_TEXT = ("Lean 4 theorems by structural induction over expression trees of 
               "operators, grid functions in primal/dual representation, potential operators): a program is accepted by the "
               "model interpreter exactly when it type-checks, with the same exception class otherwise; every value it "
               "produces equals the plain matrix/vector denotation; to_dense agrees with matvec; products are weak form x "
-              "inverse mass x weak form.  The model is compared with the real API on random programs on every run.")
+              "inverse mass x weak form; the offset loops that apply discrete blocked and generalized blocked operators "
+              "compute the product with to_dense() for every block layout (Model/Blocked.lean).  The model is compared "
+              "with the real API on random programs (and, for the blocked products, exactly on dyadic data) on every run.")
 LEVEL_NOTE = ("full on the model; the tie to /repo is differential (random programs, depth <= 5 quick / 8 thorough). Trusted: "
               "Lean kernel, hand model Model/Alg.lean, harness; inverse mass matrices are pool data; IEEE rounding not modelled.")
 TECHNIQUE = "Lean 4 proof (structural induction over an expression language) + differential correspondence + NumPy oracle"
